@@ -10,7 +10,7 @@ import random as _pyrandom
 
 import numpy as np
 
-from harness.export import milli, ppm, NONE
+from harness.export import milli, ppm, ppm_recorded, NONE
 
 ACTION_KIND = {
     "Exploit": "exploit", "PrivilegeEscalation": "privesc", "ServiceScan": "service_scan",
@@ -241,7 +241,9 @@ class Recorder:
             try:
                 ret = env.reset() if seed is None else env.reset(seed=seed)
             except Exception as exc:       # noqa
+                self.last_ret, self.last_exc = None, exc
                 return self.raised(eid, "reset", exc, "C10", "reset_is_total")
+        self.last_ret, self.last_exc = ret, None
         after = env.current_state.tensor
         arity = len(ret) if isinstance(ret, tuple) else -1
         obs = ret[0] if arity >= 1 else ret
@@ -276,14 +278,15 @@ class Recorder:
             try:
                 ret = env.step(arg)
             except Exception as exc:       # noqa
+                self.last_ret, self.last_exc = None, exc
                 return self.raised(eid, "step", exc, "C10", "every_member_accepted", dict(a=adesc))
+        self.last_ret, self.last_exc = ret, None
         after_state = env.current_state
         after = after_state.tensor
         arity = len(ret) if isinstance(ret, tuple) else -1
         obs, reward, term, trunc, info = ret
-        if u is None:
-            u = self.trip.draws[0] if self.trip.draws else 0.5
-        ev = dict(ev="step", env=eid, a=adesc, u=ppm(u), ndraw=len(self.trip.draws),
+        uppm = ppm(u) if u is not None else ppm_recorded(self.trip.draws[0]) if self.trip.draws else 500000
+        ev = dict(ev="step", env=eid, a=adesc, u=uppm, ndraw=len(self.trip.draws),
                   entropy=list(self.trip.others),
                   pre_rows=diff_rows(self.last_post[eid], before),
                   post_rows=diff_rows(before, after),
@@ -328,9 +331,8 @@ class Recorder:
             oarr = obs.numpy_flat()
         else:
             oarr = obs.numpy()
-        if u is None:
-            u = self.trip.draws[0] if self.trip.draws else 0.5
-        ev = dict(ev="genstep", env=eid, a=adesc, u=ppm(u), ndraw=len(self.trip.draws),
+        uppm = ppm(u) if u is not None else ppm_recorded(self.trip.draws[0]) if self.trip.draws else 500000
+        ev = dict(ev="genstep", env=eid, a=adesc, u=uppm, ndraw=len(self.trip.draws),
                   entropy=list(self.trip.others),
                   pre_rows=diff_rows(self.last_post[eid], arg_copy),
                   post_rows=diff_rows(arg_copy, nstate.tensor),
